@@ -32,7 +32,13 @@ func FuzzC07Import(f *testing.F) {
 		spec, err := fp.FingerprintClientHello(rec)
 		var s2 tls.ClientHelloSpec
 		_ = s2.FromRaw(rec, flags&8 != 0, flags&16 != 0)
-		if err == nil && spec != nil {
+		// applicability is promised for syntactically valid ClientHellos only (strict parser)
+		valid := false
+		if len(rec) > 5 {
+			_, perr := wire.ParseClientHello(rec[5:])
+			valid = perr == nil
+		}
+		if err == nil && spec != nil && valid {
 			u := tls.UClient(nil, &tls.Config{ServerName: "example.test", OmitEmptyPsk: true}, tls.HelloCustom)
 			if u.ApplyPreset(spec) == nil {
 				_ = u.BuildHandshakeState()
@@ -57,7 +63,7 @@ func FuzzC07JSON(f *testing.F) {
 	f.Add([]byte(`{"cipher_suites":[],"compression_methods":[],"extensions":[{"name":"key_share","client_shares":[{"group":"x25519"}]},{"name":"padding","len":0}]}`))
 	f.Fuzz(func(t *testing.T, doc []byte) {
 		var spec tls.ClientHelloSpec
-		if err := spec.UnmarshalJSON(doc); err == nil {
+		if err := spec.UnmarshalJSON(doc); err == nil && specDescribesValidHello(&spec) && jsonSpecInLimits(&spec) {
 			u := tls.UClient(nil, &tls.Config{ServerName: "example.test", OmitEmptyPsk: true}, tls.HelloCustom)
 			if u.ApplyPreset(&spec) == nil {
 				_ = u.BuildHandshakeState()
@@ -236,4 +242,15 @@ func FuzzC34Message(f *testing.F) {
 			t.Fatalf("server call parked (%s)", res.hung.State)
 		}
 	})
+}
+
+// jsonSpecInLimits: the field values a JSON document set can be encoded at all (a padding
+// length beyond the 16-bit extension body, for instance, describes no ClientHello).
+func jsonSpecInLimits(sp *tls.ClientHelloSpec) bool {
+	for _, e := range sp.Extensions {
+		if p, ok := e.(*tls.UtlsPaddingExtension); ok && (p.PaddingLen < 0 || p.PaddingLen > 65535-512) {
+			return false
+		}
+	}
+	return true
 }
